@@ -372,7 +372,7 @@ def check_exact_norms(run, prop="C03"):
         tot = sum(float(f) for _o, f, _s, _n in ev["sub"])
         norm = ev["state_norm"]
         if norm is not None:
-            if abs(tot - norm) > 1e-6 * max(1.0, norm):  # entries np.isclose to 0 are dropped by the exact path
+            if abs(tot - norm) > 2e-6 * max(1.0, norm):  # entries np.isclose to 0 are dropped by the exact path
                 raise Violation(prop, "chain-rule", "weights-vs-norm", "measurement %d (%s): weights sum to %.12g, the measured state has norm %.12g" % (ev["idx"], ev["type"], tot, norm))
             n += 1
         if ev["type"] == "ParticleNumberMeasurement":
